@@ -1,6 +1,29 @@
 """Property -> packs, bounded stand-ins, native replay harness, notes (read by pyvc.check)."""
 
 REGISTRY = {
+    "C13": dict(
+        packs=["c13"],
+        level="proof",
+        replay=dict(script="replay/c13.py", args=["stream", "{seed}", "8"], timeout=600),
+        bounded=[dict(name="stream-vs-BytesIO", script="replay/c13.py", args=["stream", "{seed}", "8"],
+                      bound="8 random payloads (sizes around the 8 KiB buffer) x {zlib, gzip} x 30 random read/seek/tell/readinto/readline operations; "
+                            "write side in random chunkings and levels decoded by the standard zlib/gzip decoders")],
+        trusted=["zlib.decompressobj / compressobj streaming contracts (DESIGN 4.4)", "underlying blocking file object: read(n) returns 0<k<=n bytes or b'' at EOF",
+                 "io.BufferedIOBase.readinto/readline are implemented on top of read() (CPython)"],
+        assumptions=["seek targets are >= 0 (domain of the property)", "fp.write does not raise"],
+        undecided_clauses=["readinto / readline are inherited from io.BufferedIOBase (external); covered only by the bounded native comparison"],
+    ),
+    "C14": dict(
+        packs=["c13"],
+        level="proof",
+        replay=dict(script="replay/c13.py", args=["damaged", "{seed}", "3"], timeout=900),
+        bounded=[dict(name="truncation-and-trailing-bytes", script="replay/c13.py", args=["damaged", "{seed}", "3"],
+                      bound="3 small objects x 6 compressors x every truncation point + 4 over-long variants, 15 s watchdog per load")],
+        trusted=["pickle._Unpickler.load on a strict prefix of a valid stream raises (it can only return at STOP)",
+                 "zlib / file-object contracts as in C13"],
+        assumptions=["bz2 / lzma / gzip module readers are externals: their termination is only exercised by the bounded native check"],
+        undecided_clauses=["'a damaged cache entry makes Memory recompute' is the except-Exception path of MemorizedFunc._cached_call, decided in the store pack (C05)"],
+    ),
     "C17": dict(
         packs=["c17"],
         level="proof",
@@ -48,6 +71,22 @@ NOT_APPLICABLE = {
 }
 
 MANIFEST_TEXT = {
+    "C13": dict(
+        text="Representation invariant of BinaryZlibFile/BinaryGzipFile (buffer, offset, position against the ghost decompressed stream D) proved "
+             "to be preserved by _fill_buffer, _read_all, _read_block, read, seek, _rewind, tell with inductive loop invariants over sequences; "
+             "read(n)/read()/read(0)/seek(all whence, clamped)/tell return exactly the reference bytes and positions for every D, every chunking by "
+             "the decompressor and every raw block size; closed / wrong-mode calls raise and change nothing; write passes each input once, in order, "
+             "to the compressor and writes its output, close flushes exactly once and closes the file only when it opened it; constructor validation.",
+        note="Assumed: zlib streaming contracts, blocking file object, BufferedIOBase.readinto/readline built on read(). One fix commit (hang on "
+             "trailing bytes, found as a failing termination measure). Native comparison with BytesIO is bounded and not counted.",
+    ),
+    "C14": dict(
+        text="Termination measures (loop variants) discharged for every read loop of BinaryZlibFile on EVERY raw input - valid, truncated at any "
+             "point, or followed by arbitrary bytes - plus 'no fabricated bytes' (whatever is returned is a slice of D) and exact-length reads in "
+             "_read_bytes (returns exactly `size` bytes or raises ValueError at EOF).",
+        note="Assumed: the unpickler raises on a strict prefix; bz2/lzma/gzip-module readers are externals (bounded native truncation sweep only). "
+             "The fix for the trailing-bytes hang is a 'fix:' commit; reverting it fails loop1/decreases of _fill_buffer.",
+    ),
     "C17": dict(
         text="Proof over the finite decision space the code distinguishes plus symbolic setting values: _get_config_param implements "
              "explicit > context > default for every key; parallel_config.__init__ installs given-or-enclosing value per key, saves the previous "
